@@ -11,7 +11,7 @@ import gen
 import p_poly as pp
 
 ORDERS = [None, [1], [2], [3], [4], [5], [1, 2, 3, 4, 5], [2, 1], [5, 4, 3, 2, 1], [3, 1, 2]]
-WIRINGS = ["independent", "cascade", "cascade_rev", "shared_inputs", "feedback", "cascade2", "cascade_onesided", "kaykobad3"]
+WIRINGS = ["independent", "cascade", "cascade_rev", "shared_inputs", "feedback", "cascade2", "cascade_onesided", "kaykobad3", "tiny_coupling"]
 
 
 # ------------------------------------------------------------------ generators
@@ -37,6 +37,17 @@ def two_sided(rng, lin, p, width=4):
 def gen_pair(rng, wiring=None):
     """Two composable polyhedral contracts (dicts a,g,i,o) in the requested wiring."""
     wiring = wiring or rng.choice(WIRINGS)
+    if wiring == "tiny_coupling":
+        # the consumer's assumption mentions the connected variable with a coefficient below 1e-6 while that variable ranges
+        # over hundreds: 9.5e-7 * 900 is far above the tolerance, the coupling must survive the elimination
+        hi = F(rng.choice([600, 800, 900]))
+        c1 = {"a": [({"x": F(1)}, hi), ({"x": F(-1)}, F(0))], "g": [({"y": F(1), "x": F(-1)}, F(0)), ({"y": F(-1), "x": F(1)}, F(0))],
+              "i": ["x"], "o": ["y"]}
+        c2 = {"a": [({"u": F(1), "y": F(rng.choice([1, -1]), 2 ** 20)}, F(1, 2))], "g": [({"v": F(1), "u": F(-1)}, F(0))],
+              "i": ["y", "u"], "o": ["v"]}
+        if rng.random() < 0.5:
+            c1, c2 = c2, c1
+        return wiring, c1, c2
     if wiring == "kaykobad3":
         # producer: three outputs tied together by a matrix of guarantees; consumer: one assumption (and one guarantee) over all
         # three (the Kaykobad test of tactics 1 and 3 decides whether the rows may be solved as equalities)
@@ -125,8 +136,16 @@ def overlap_guarantees(rng, c1, c2):
     if not pool:
         return
     t = gen.rand_term(rng, pool, "dyadic", pmax=1)
-    mode = rng.choice(["identical", "scaled", "implied", "near_equal"])
+    mode = rng.choice(["identical", "scaled", "implied", "near_equal", "tiny_coefficient"])
     both = [v for v in c1["i"] + c1["o"] if v in c2["i"] + c2["o"] and v not in (set(c1["o"]) & set(c2["i"])) | (set(c2["o"]) & set(c1["i"]))]
+    if mode == "tiny_coefficient":
+        # an interface-level guarantee with one coefficient below 1e-6 (9.5e-7) next to an ordinary one, over a shared input
+        # nothing else constrains: worth 9.5e-4 at the edge of the box, far above the tolerance -- it must not be dropped
+        for c in (c1, c2):
+            c["i"] = list(c["i"]) + ["p"]
+        tgt = rng.choice([c1, c2])
+        tgt["g"].append(({tgt["o"][0]: F(rng.choice([1, -1, 2])), "p": F(rng.choice([1, -1]), 2 ** 20)}, F(rng.randint(0, 3))))
+        return
     if mode == "near_equal":
         # two different guarantees that agree up to 4e-6 relative in one coefficient (4e-3 apart at the edge of the box),
         # over two shared inputs that nothing else constrains
